@@ -58,10 +58,19 @@ pub fn run(seed: u64, count: usize, _thorough: bool, out: &mut Out, tmp: &str) {
         let text = pdbgen::text(&mut rng, &recs);
         let n_h = recs.iter().filter(|r| matches!(r, pdbgen::Rec::Atom(a) if a.element.trim() == "H")).count();
         out.count(&format!("pdb:hydrogen-records:{}", n_h.min(3)));
+        // the same records without the hydrogen records, rendered afresh
+        let recs_no_h: Vec<pdbgen::Rec> = recs.iter().filter(|r| !matches!(r, pdbgen::Rec::Atom(a) if a.element.trim() == "H")).cloned().collect();
+        let text_no_h = pdbgen::text(&mut rng, &recs_no_h);
         for opts in 0..8usize {
             let (obs, pdb) = read_obs_format(text.as_bytes(), Format::Pdb, opts, 2);
             out.case("C15", call("readpdb", vec![z(opts as i128), z(2), s(&text)]), obs, "corr:reader-model", true);
-            out.case("C15", call("pdbaccept", vec![z(opts as i128), l(recs.iter().map(pdbgen::rec_sx).collect())]), y(if pdb.is_some() { "accepted" } else { "rejected" }), "prop:pdb-options-accept", true);
+            if opts & 1 == 0 {
+                out.case("C15", call("pdbaccept", vec![z(opts as i128), l(recs.iter().map(pdbgen::rec_sx).collect())]), y(if pdb.is_some() { "accepted" } else { "rejected" }), "prop:pdb-options-accept", true);
+            } else {
+                // discard_hydrogens accepts exactly when the text without its hydrogen records is accepted under the other options
+                let (_, other) = read_obs_format(text_no_h.as_bytes(), Format::Pdb, opts & !1, 2);
+                out.case("C15", call("sameaccept", vec![y("pdb"), z(opts as i128), z(out.len() as i128)]), y(if pdb.is_some() == other.is_some() { "same" } else { "differs" }), "prop:pdb-discard-accept", true);
+            }
             match pdb {
                 Some(p) => {
                     out.case("C15", call("pdbfilter", vec![z(opts as i128), l(recs.iter().map(pdbgen::rec_sx).collect())]), structure(&p), "prop:pdb-options-filter", opts != 0);
@@ -83,7 +92,9 @@ pub fn run(seed: u64, count: usize, _thorough: bool, out: &mut Out, tmp: &str) {
             // the same position in every model so that the models keep corresponding
             if let Some(f) = first {
                 let per = d.rows.iter().filter(|r| r.model == f.model).count().max(1);
-                for k in (0..d.rows.len()).step_by(per) {
+                // (only when the models have the same rows; otherwise the first row alone)
+                let equal = d.rows.len() % per == 0 && d.rows.chunks(per).all(|c| c.iter().all(|r| r.model == c[0].model));
+                for k in (0..if equal { d.rows.len() } else { 1 }).step_by(per) {
                     d.rows[k].ty = "H".into();
                     d.rows[k].name = "H".into();
                 }
@@ -92,10 +103,18 @@ pub fn run(seed: u64, count: usize, _thorough: bool, out: &mut Out, tmp: &str) {
         let text = cifgen::render(&mut rng, &d, Spelling::Any, i % 3 == 0);
         let n_h = d.rows.iter().filter(|r| r.ty.trim() == "H").count();
         out.count(&format!("cif:hydrogen-rows:{}", n_h.min(3)));
+        let mut d_no_h = d.clone();
+        d_no_h.rows.retain(|r| r.ty.trim() != "H");
+        let text_no_h = cifgen::render(&mut rng, &d_no_h, Spelling::Any, false);
         for opts in 0..8usize {
             let (obs, pdb) = read_obs_format(text.as_bytes(), Format::Mmcif, opts, 2);
             out.case("C15", call("readcif", vec![z(opts as i128), z(2), s(&text)]), obs, "corr:reader-model", true);
-            out.case("C15", call("cifaccept", vec![z(opts as i128), cifgen::doc_sx(&d)]), y(if pdb.is_some() { "accepted" } else { "rejected" }), "prop:cif-options-accept", true);
+            if opts & 1 == 0 {
+                out.case("C15", call("cifaccept", vec![z(opts as i128), cifgen::doc_sx(&d)]), y(if pdb.is_some() { "accepted" } else { "rejected" }), "prop:cif-options-accept", true);
+            } else {
+                let (_, other) = read_obs_format(text_no_h.as_bytes(), Format::Mmcif, opts & !1, 2);
+                out.case("C15", call("sameaccept", vec![y("cif"), z(opts as i128), z(out.len() as i128)]), y(if pdb.is_some() == other.is_some() { "same" } else { "differs" }), "prop:cif-discard-accept", true);
+            }
             match pdb {
                 Some(p) => {
                     out.case("C15", call("ciffilter", vec![z(opts as i128), cifgen::doc_sx(&d)]), structure(&p), "prop:cif-options-filter", opts != 0);
